@@ -37,6 +37,11 @@ CLAIMS.update({
     "C03": ("interprocedural dominating-facts analysis (nullability, non-emptiness), def-use taint into regex sinks, regex-tree ambiguity query, loop-progress check on per-loop CFGs", "Decides four mechanisms by which text kills this parser: parser state that is None outside constructs is never dereferenced unguarded (with lock-step twin, establishing calls, caller obligations, result-conditioned summaries); constant end-subscripts on possibly empty text are guarded; document/option text reaches no pattern unescaped and no replacement template unescaped, no pattern has ambiguous nested unbounded repetition; every while loop of the indexing code has a progress statement on every cycle. Not decided: absence of every other exception, concrete time bounds."),
 })
 
+CLAIMS.update({
+    "C13": ("regex-tree queries (cased letters vs IGNORECASE, end anchors), case lattice over string expressions (def-use, field and container stores, call-site substitution)", "Decides: every pattern that spells out letters and is applied to Fortran text carries IGNORECASE; no entity name is compared as written, and where one side of a comparison or look-up is case-normalised the other is normalised alike (violations only on provably raw operands; underivable cases are reported as undecided); one LF/CRLF/CR splitter for both ingestion paths; end-anchored statement patterns tolerate trailing blanks or their argument is right-stripped. Not decided: continuation/semicolon handling, comment insertion, line shifts (behaviour of get_code_line/parse on text)."),
+    "C14": ("regex-tree queries on the fixed-form lexical patterns + dominating-facts check of every free/fixed pattern use", "Decides: FIXED_COMMENT/FIXED_DOC start with exactly {! c C d D *} and are applied at column 1, FIXED_CONT is five blanks plus a non-blank, LINE_LABEL is digits plus blank; every use of a FREE_* pattern is in the not-fixed arm of a test of the form flag and the function has a fixed-form arm; every whole-buffer writer re-detects the form and the parser re-derives its comment patterns; the stripped label reaches the labelled-DO closer. Not decided: equality of the two renderings' indexes, the content heuristic detect_fixed_format."),
+})
+
 NA_REASON = "check under construction in this round (rules designed in DESIGN.md section 3, not yet implemented); will move to checks once its rules run"
 
 
